@@ -693,7 +693,29 @@ def r5_defaults(run, w, tsf, cmp_):
   # fallback for unknown types
   fi = w.repo.func("usertypes.get_type_default")
   gv = H.View(w.fn_of(fi))
-  rets = [s for s in walk_no_nested(fi.node) if isinstance(s, ast.Return)]
+  rets = sorted([s for s in walk_no_nested(fi.node) if isinstance(s, ast.Return)],
+                key=lambda s: (s.lineno, s.col_offset))
+  # early returns under a guard on the type string: each pure type the guard admits must get the
+  # default Node gives that pure type (Node looks up _defaultValues[extractTypeFromColType(t)] only)
+  early = [s for s in rets[:-1]]
+  rets = rets[-1:]
+  for er in early:
+    chain = [x for x in enclosing_ifs(fi.node, er)]
+    if len(chain) != 1 or er not in chain[0].body:
+      raise AnalysisError("usertypes.get_type_default: early return not directly under one `if`")
+    adm = _admits(mod, chain[0].test, fi.params()[0], 0)
+    val = _early_value(er.value, pyd)
+    if adm is None or val is None:
+      raise AnalysisError("usertypes.get_type_default: early return `%s` under `%s`: cannot decide "
+                          "which types it serves" % (text(er.value), text(chain[0].test)))
+    for ptype in sorted(adm):
+      tv = tsd.get(ptype)
+      if not (isinstance(tv, list) and len(tv) == 2):
+        raise AnalysisError("%s: no _defaultValues entry for %s" % (TYPES_TS, ptype))
+      run.ob(R5, fi.qualname, "early return %s for %s:<...> ~ _defaultValues.%s %r"
+             % (text(er.value), ptype, ptype, tv[0]),
+             "a type served by an early return gets the default Node gives its pure type",
+             cmp_.eq(_canon_py(val[0]), _canon_ts(tv[0])), fi=fi, node=er)
   r = gv.x(rets[0].value) if len(rets) == 1 else None
   rb = H.bind_args(r, ("key", "default")) if isinstance(r, ast.Call) and \
       text(r.func) == "_type_defaults.get" else None
@@ -717,6 +739,83 @@ def r5_defaults(run, w, tsf, cmp_):
   run.ob(R5, fi.qualname, "fallback %r ~ _defaultValues.%s" % (py_fb, fb),
          "a type neither table lists gets the same default on both sides", ok, fi=fi)
   return 1
+
+
+def enclosing_ifs(fnode, stmt):
+  out = []
+  def rec(body, acc):
+    for x in body:
+      if x is stmt:
+        out.extend(acc)
+        return True
+      if isinstance(x, ast.If):
+        if rec(x.body, acc + [x]) or rec(x.orelse, acc + [x]):
+          return True
+      elif isinstance(x, (ast.For, ast.While, ast.With, ast.Try)):
+        for b in (getattr(x, "body", []), getattr(x, "orelse", []), getattr(x, "finalbody", [])):
+          if rec(b, acc + [x]):
+            return True
+    return False
+  rec(fnode.body, [])
+  return out
+
+
+def _early_value(e, pyd):
+  """(python value,) of `_type_defaults['K']` / `_type_defaults.get('K')` / a constant; else None"""
+  if isinstance(e, ast.Constant):
+    return (e.value,)
+  k = None
+  if isinstance(e, ast.Subscript) and text(e.value) == "_type_defaults" and \
+      isinstance(e.slice, ast.Constant):
+    k = e.slice.value
+  elif isinstance(e, ast.Call) and text(e.func) == "_type_defaults.get" and e.args and \
+      isinstance(e.args[0], ast.Constant):
+    k = e.args[0].value
+  if k is not None and k in pyd.keys():
+    return (pyd.get(k),)
+  return None
+
+
+def _admits(mod, test, param, depth):
+  """set of pure type names for which `test` (about the type string `param`) can be truthy, or
+  None when that cannot be read off the code"""
+  if depth > 2:
+    return None
+  if isinstance(test, ast.BoolOp) and isinstance(test.op, ast.Or):
+    parts = [_admits(mod, v, param, depth) for v in test.values]
+    return None if any(p is None for p in parts) else set().union(*parts)
+  if isinstance(test, ast.Compare) and len(test.ops) == 1 and isinstance(test.ops[0], ast.Eq) and \
+      isinstance(test.comparators[0], ast.Constant) and isinstance(test.comparators[0].value, str) \
+      and text(test.left) in (param, "get_pure_type(%s)" % param):
+    return {test.comparators[0].value.split(":")[0]}
+  if isinstance(test, ast.Call) and isinstance(test.func, ast.Attribute) and \
+      test.func.attr == "startswith" and text(test.func.value) == param and len(test.args) == 1:
+    a = test.args[0]
+    vals = [a] if isinstance(a, ast.Constant) else (a.elts if isinstance(a, ast.Tuple) else None)
+    if vals and all(isinstance(v, ast.Constant) and isinstance(v.value, str) and
+                    v.value.endswith(":") for v in vals):
+      return {v.value[:-1] for v in vals}
+    return None
+  if isinstance(test, ast.Call) and isinstance(test.func, ast.Name) and len(test.args) == 1 and \
+      text(test.args[0]) == param and test.func.id in mod.functions:
+    f = mod.functions[test.func.id]
+    fp = f.params()[0] if f.params() else None
+    out = set()
+    body = [x for x in f.node.body if not (isinstance(x, ast.Expr) and isinstance(x.value, ast.Constant))]
+    for x in body[:-1]:
+      if not (isinstance(x, ast.If) and not x.orelse and len(x.body) == 1 and
+              isinstance(x.body[0], ast.Return)):
+        return None
+      sub = _admits(mod, x.test, fp, depth + 1)
+      if sub is None:
+        return None
+      out |= sub
+    last = body[-1] if body else None
+    if not (isinstance(last, ast.Return) and (last.value is None or
+            (isinstance(last.value, ast.Constant) and not last.value.value))):
+      return None
+    return out
+  return None
 
 
 SP = "sandbox/grist/schema.py"
@@ -750,6 +849,9 @@ VARIANTS = [
    "  col_type = col_type.split('#', 1)[0]", "C38-R3"),
   ("generator-prints-id-as-type", G, "print('    %s: %s;' % (column['id'], get_ts_type(column['type'])))",
    "print('    %s: %s;' % (column['id'], get_ts_type(column['id'])))", "C38-R4"),
+  ("reflist-served-the-ref-default", UT, "def get_type_default(col_type):\n",
+   "def get_type_default(col_type):\n  if get_referenced_table_id(col_type):\n"
+   "    return _type_defaults['Ref']\n", "C38-R5"),
   ("python-bool-default-none", UT, "  'Bool':         False,", "  'Bool':         None,", "C38-R5"),
   ("python-numeric-default-nan-free-one", UT, "  'Numeric':      0.0,", "  'Numeric':      1.0,",
    "C38-R5"),
